@@ -290,8 +290,8 @@ SplitLoop(xs, pred, cur, out, log, mode, last) ==
             ELSE IF mode = 2 THEN
                     (IF Truthy(p.v) THEN SplitLoop(Tail(xs), pred, <<>>, Append(out, L(cur)), p.log, mode, last)
                      ELSE SplitLoop(Tail(xs), pred, Append(cur, Head(xs)), out, p.log, mode, last))
-            ELSE LET t == IF Truthy(p.v) THEN 1 ELSE 0
-                 IN IF last # 2 /\ t # last /\ cur # <<>>
+            ELSE LET t == p.v         \* the predicate's value itself is compared (Python equality), not its truth
+                 IN IF last # <<"noprev">> /\ ~VEq(t, last) /\ cur # <<>>
                     THEN SplitLoop(Tail(xs), pred, <<Head(xs)>>, Append(out, L(cur)), p.log, mode, t)
                     ELSE SplitLoop(Tail(xs), pred, Append(cur, Head(xs)), out, p.log, mode, t)
 
@@ -432,8 +432,8 @@ Method(f, recv, args, kw, log) ==
    [] f = "enumerate" /\ coll /\ n = 1 /\ isI(a1) -> R(L(EnumL(xs, a1[2])), log)
    [] f = "slice" /\ coll /\ n = 1 /\ isI(a1) -> IF a1[2] <= 0 THEN R(<<"e", "out-of-domain">>, log) ELSE R(L(SliceL(xs, a1[2])), log)
    [] f = "splitAt" /\ coll /\ n = 1 /\ isI(a1) -> IF a1[2] < 0 THEN R(<<"e", "out-of-domain">>, log) ELSE R(L(<<L(TakeN(xs, a1[2])), L(SkipN(xs, a1[2]))>>), log)
-   [] f = "sliceWhere" /\ coll /\ lam1 /\ n = 1 -> SplitLoop(xs, a1, <<>>, <<>>, log, 1, 2)
-   [] f = "splitWhere" /\ coll /\ lam1 /\ n = 1 -> SplitLoop(xs, a1, <<>>, <<>>, log, 2, 2)
+   [] f = "sliceWhere" /\ coll /\ lam1 /\ n = 1 -> SplitLoop(xs, a1, <<>>, <<>>, log, 1, <<"noprev">>)
+   [] f = "splitWhere" /\ coll /\ lam1 /\ n = 1 -> SplitLoop(xs, a1, <<>>, <<>>, log, 2, <<"noprev">>)
    [] f = "insert" /\ coll /\ n = 2 /\ isI(a1) -> IF a1[2] < 0 THEN R(<<"e", "out-of-domain">>, log) ELSE R(L(InsertL(xs, a1[2], a2)), log)
    [] f = "insertMany" /\ coll /\ n = 2 /\ isI(a1) /\ IsColl(a2) ->
         IF a1[2] < 0 THEN R(<<"e", "out-of-domain">>, log) ELSE R(L(InsertManyL(xs, a1[2], a2[2])), log)
